@@ -11,7 +11,7 @@ PROP = 'C04'
 LEAN_MODULES = ['Glom.Props.C04']
 FACT_FILES = ['ExcFacts', 'C04Facts', 'TFacts', 'c04']
 READY = True
-THEOREMS_PER_MODULE = {'Glom.Props.C04': 44}
+THEOREMS_PER_MODULE = {'Glom.Props.C04': 34}
 
 # ---------------------------------------------------------------------------------------------------
 # SWITCH — classes on which the UNCHANGED glom breaks the property (reported to the lead, see the
@@ -1026,7 +1026,7 @@ def mutate(rng, case):
 
 
 def generate(rng, tier, scale, **focus):
-    n = (2600 if tier == 'quick' else 40000) * scale
+    n = (2600 if tier == 'quick' else 30000) * scale
     maxdepth = 4 if tier == 'quick' else 8
     last = None
     for i in range(n):
@@ -1093,10 +1093,15 @@ CONTEXTS = ['fault',
            [{'frame': 'fault', 'kind': k} for k in FRAME_KINDS] + [{'first': 'fault', 'kind': k} for k in FIRST_KINDS]
 
 
+N_CORE_CONTEXTS = 11       # the contexts of CONTEXTS that get the full keyword matrix
+
+
 def exhaustive(tier):
     cat = catalogue()
-    ctxs = CONTEXTS if tier == 'thorough' else [CONTEXTS[0], CONTEXTS[1], CONTEXTS[3], CONTEXTS[9]] + CONTEXTS[11:]
-    step = 1 if tier == 'thorough' else 97
+    thorough = tier == 'thorough'
+    core = CONTEXTS[:N_CORE_CONTEXTS] if thorough else [CONTEXTS[0], CONTEXTS[1], CONTEXTS[3], CONTEXTS[9]]
+    extra = CONTEXTS[N_CORE_CONTEXTS:]         # one context per fault source / frame kind / iterator step
+    step = 3 if thorough else 97
     i = 0
     for classes, exc in cat:
         mro = class_mro(exc['cls'], classes)
@@ -1104,13 +1109,22 @@ def exhaustive(tier):
         skips = [(None, False), ([real[0]], False), ([real[min(1, len(real) - 1)]], False),
                  (['ZeroDivisionError' if 'ZeroDivisionError' not in mro else 'EOFError'], False),
                  (['EOFError', real[-1]], True), ([], True), (['GlomError'], False)]
-        for spec in ctxs:
+        for spec in core:
             for d, (skip, tup), dbg in itertools.product((False, True), skips, (None, False, True)):
                 i += 1
                 if i % step:
                     continue
                 yield mk_case(classes, exc, spec, {'default': d, 'skip': skip, 'skip_tuple': tup, 'debug': dbg},
                               entry=ENTRIES[i // step % 3])
+        few = [(False, (None, False), None), (True, (None, False), None), (False, ([real[0]], False), None),
+               (True, (['EOFError', real[-1]], True), False), (False, (None, False), True), (True, ([], True), None)]
+        for spec in extra:
+            for d, (skip, tup), dbg in few:
+                i += 1
+                if i % (2 if thorough else 97):
+                    continue
+                yield mk_case(classes, exc, spec, {'default': d, 'skip': skip, 'skip_tuple': tup, 'debug': dbg},
+                              entry=ENTRIES[i % 3])
 
 
 def corpus():
